@@ -18,7 +18,7 @@ EXH_M3 = 6
 N_EXH = EXH_M4 * 1296 + EXH_M3 * 8
 BUDGET = {
     "quick": {"runs": 6000, "wall": 300, "chunk": 40},
-    "thorough": {"runs": N_EXH + 30000, "wall": 3000, "chunk": 150},
+    "thorough": {"runs": N_EXH + 300000, "wall": 3400, "chunk": 150},
 }
 RULE = (
     "PCGrad: conflict-rich matrices (m<=6 rows drawn around antagonistic directions, incl. zero, duplicate and "
